@@ -190,10 +190,23 @@ func solveOne(u *UnitResult, o *OblResult, cfg solveConfig) (disagreement string
 			r       solveOut
 		}
 		n := len(solvers)
-		ch := make(chan res, n+1)
+		ch := make(chan res, n+2)
 		for _, s := range solvers {
 			go func(s solverSpec) { ch <- res{s.name, false, runSolverCtx(ctx, s, file, cfg.timeoutS)} }(s)
 		}
+		// E-matching only (no model-based quantifier instantiation): decides many quantifier-heavy goals instantly;
+		// only its 'unsat' is used
+		n++
+		go func() {
+			em := solverSpec{"z3-new(ematch)", func(f string, t int) []string {
+				return []string{"z3-new", fmt.Sprintf("-T:%d", t), "smt.mbqi=false", "smt.auto_config=false", f}
+			}}
+			r := runSolverCtx(ctx, em, file, cfg.timeoutS)
+			if r.verdict != "unsat" {
+				r.verdict = "unknown"
+			}
+			ch <- res{em.name, false, r}
+		}()
 		rq := u.ctx.QueryX(o.Prefix, o.Goal, true, true)
 		if rq != q {
 			rfile := strings.TrimSuffix(file, ".smt2") + ".relaxed.smt2"
